@@ -73,6 +73,12 @@ func (c *Ctx) reachable(roots ...*ssa.Function) map[*ssa.Function]bool {
 			if cal == nil || seen[cal] {
 				continue
 			}
+			// js/wasm configuration: syscall/js dispatches registered callbacks (ferretCompile) from the
+			// browser's event loop. VTA sees that dispatch as a call made by whoever touches syscall/js
+			// (e.g. file access from a parser goroutine); it is not a call on that goroutine's stack.
+			if cal.Pkg != nil && cal.Pkg.Pkg != nil && cal.Pkg.Pkg.Path() == "syscall/js" {
+				continue
+			}
 			seen[cal] = true
 			stack = append(stack, cal)
 		}
